@@ -4,8 +4,10 @@ import UPVerif.Core.Problem
 /-
 Multi-agent problem syntax (`unified_planning/model/multi_agent/`): the part of `MultiAgentProblem`
 (ma_problem.py), `Agent` (agent.py) and `MAEnvironment` (ma_environment.py) that the two multi-agent
-removers read and write — environment fluents, agents with their (public / private) fluents and
-instantaneous actions, and the shared goals.  Agent-specific goals are outside the supported kind of
+removers read and write — user types and objects (read by `Effect.expand_effect` when
+`ConditionalEffectsRemover._instances_of_conditional_effect` expands a conditional forall effect),
+environment fluents, agents with their (public / private) fluents and instantaneous actions, and the
+shared goals.  Agent-specific goals are outside the supported kind of
 both compilers (`AGENT_SPECIFIC_*_GOAL` is not set by their `supported_kind`), initial values are
 copied verbatim by `clone()` and never read: neither is part of the syntax.
 
@@ -69,7 +71,17 @@ structure MAProblem where
   agents : List Agent
   /-- the shared goals (`problem.goals`) -/
   goals : List Expr
+  /-- user-type hierarchy (`UserTypesSetMixin`) -/
+  types : TypeEnv := { fathers := [] }
+  /-- objects in declaration order: (name, user type) (`ObjectsSetMixin`) -/
+  objects : List (String × String) := []
   deriving Repr, Inhabited
+
+/-- what `Effect.expand_effect(problem)` reads of the problem — `problem.objects(type)` — as a single-agent
+    `Problem`, so that `Sim.expandEffect` (the model of `expand_effect`) is shared with C01/C06/C07 -/
+def MAProblem.objProblem (P : MAProblem) : Problem :=
+  { name := P.name, types := P.types, objects := P.objects, fluents := [], init := [], actions := [],
+    goals := [], traj := [], metrics := [] }
 
 /-- a compiled action with what `CompilerResult.map_back_action_instance` maps it to: the NAME of an
     action of the SAME agent in the original problem, `none` for an action that maps back to nothing -/
@@ -101,10 +113,11 @@ def CAgent.names (a : CAgent) : List String := a.actions.map (·.act.name) ++ a.
 /-! ### wire format
 
 ```
-(maproblem name (env ((name type (sig…)) default|_) …)
+(maproblem name [(types (T _) (S T) …) (objects (o T) …)] (env ((name type (sig…)) default|_) …)
   (agents (agent name (fluents ((name type (sig…)) default|_ T|F) …) (actions <action> …)) …)
   (goals e…))
 ```
+The `types` / `objects` sections are optional (both or none).
 `<action>` and expressions as in `Core/Problem.lean` / `Core/ExprSexp.lean`; `(dot ag e)` nodes are
 accepted and rewritten by `undot`. -/
 open Sexp
@@ -132,13 +145,24 @@ def parseAgent : Sexp → Option Agent
     some { name := n, fluents := fs, actions := as.map undotAction }
   | _ => none
 
+def parseMABody (name : String) (types : TypeEnv) (objects : List (String × String))
+    (efs ags gs : List Sexp) : Option MAProblem := do
+  let env ← efs.mapM parseDecl
+  let agents ← ags.mapM parseAgent
+  let goals ← gs.mapM parseExpr
+  some { name := name, env := env, agents := agents, goals := goals.map undot, types := types, objects := objects }
+
 def parseMAProblem : Sexp → Option MAProblem
   | .list [.atom "maproblem", .atom name, .list (.atom "env" :: efs),
+           .list (.atom "agents" :: ags), .list (.atom "goals" :: gs)] =>
+    parseMABody name { fathers := [] } [] efs ags gs
+  | .list [.atom "maproblem", .atom name, tys, .list (.atom "objects" :: objs), .list (.atom "env" :: efs),
            .list (.atom "agents" :: ags), .list (.atom "goals" :: gs)] => do
-    let env ← efs.mapM parseDecl
-    let agents ← ags.mapM parseAgent
-    let goals ← gs.mapM parseExpr
-    some { name := name, env := env, agents := agents, goals := goals.map undot }
+    let types ← parseTypeEnv tys
+    let objects ← objs.mapM (fun o => match o with
+      | .list [.atom n, .atom t] => some (n, t)
+      | _ => none)
+    parseMABody name types objects efs ags gs
   | _ => none
 
 def declToSexp (d : FluentDecl) : Sexp :=
